@@ -41,11 +41,11 @@ def replay_kani(art, path):
     from .kani.runner import KaniCrate, Harness
     import re
     kc = KaniCrate("replay-" + art["crate"], art.get("backend", "f64"), astro=art.get("astro", False), extra_src=art.get("prelude", ""))
-    kc.raw_harness = art["harness_source"] + "\n" + art["playback_test"]
     kc.write()
-    src = open(os.path.join(kc.dir, "src", "lib.rs")).read()
-    src = src.rstrip().rstrip("}") + "\n" + "\n".join("    " + l for l in kc.raw_harness.split("\n")) + "\n}\n"
-    open(os.path.join(kc.dir, "src", "lib.rs"), "w").write(src)
+    body = "#![allow(unused, non_snake_case, non_upper_case_globals, clippy::all)]\nuse quantities::prelude::*;\n"
+    body += art.get("prelude", "") + "\n#[cfg(kani)]\nmod h {\n    use super::*;\n"
+    body += "\n".join("    " + l for l in (art["harness_source"] + "\n" + art["playback_test"]).split("\n")) + "\n}\n"
+    open(os.path.join(kc.dir, "src", "lib.rs"), "w").write(body)
     m = re.search(r"fn (kani_concrete_playback_\w+)\(", art["playback_test"])
     if not m:
         print("no playback test recorded")
